@@ -17,7 +17,7 @@ import (
 
 type c28Field struct {
 	Name string
-	Pkg  int // 1 or 2
+	Pkg  int // index into c28World.pkg: 0 = NO package (nil), 1 = a/p, 2 = b/p, 3 = a second *Package object with path a/p
 	Emb  bool
 	Tag  string
 	T    *c28Term
@@ -105,7 +105,7 @@ func (t *c28Term) mkKey() {
 
 // c28World owns the packages, named types and shared method objects, and builds types from terms.
 type c28World struct {
-	pkg    [3]*types.Package
+	pkg    [4]*types.Package // pkg[0] stays nil: fields/methods "in Universe scope / introduced via Eval" (types.NewField/NewFunc allow it)
 	atoms  map[string]types.Type
 	shared map[string]*types.Func // shared interface methods, by name@pkg+sig key
 	memo   map[string]types.Type  // copy-1 hash-consing
@@ -118,6 +118,9 @@ func newC28World() *c28World {
 	// two packages with the SAME name and different paths
 	w.pkg[1] = types.NewPackage("a/p", "p")
 	w.pkg[2] = types.NewPackage("b/p", "p")
+	// a second, distinct *Package OBJECT for the path of pkg[1]: identifiers of the two are the same identifiers
+	// (identity of unexported names is decided by the package PATH, not by the object and not by the package name)
+	w.pkg[3] = types.NewPackage("a/p", "p")
 	w.atoms["int"] = types.Typ[types.Int]
 	w.atoms["string"] = types.Typ[types.String]
 	w.atoms["bool"] = types.Typ[types.Bool]
@@ -127,6 +130,9 @@ func newC28World() *c28World {
 	w.atoms["a/p.A"] = types.NewNamed(objA1, types.Typ[types.Int], nil)
 	// a second *Named object for the same declaration (same *TypeName): identical by definition
 	w.atoms["a/p.A'"] = types.NewNamed(objA1, types.Typ[types.Int], nil)
+	// an unexported named type: embedding it gives an unexported embedded field name, whose package is the package
+	// of the FIELD (the embedding struct), not of the type
+	w.atoms["a/p.t"] = types.NewNamed(types.NewTypeName(token.NoPos, w.pkg[1], "t", nil), types.Typ[types.Int], nil)
 	objA2 := types.NewTypeName(token.NoPos, w.pkg[2], "A", nil)
 	w.atoms["b/p.A"] = types.NewNamed(objA2, types.Typ[types.Int], nil)
 	// named interfaces: a/p.I{P()}, b/p.I{Q() int} (same name, other package), a/p.K{} (empty)
@@ -331,18 +337,35 @@ func c28EmbName(t *c28Term) string {
 // pointer-to-named) x tags; second field from a small fixed list (exported, unexported of the other package,
 // embedded, tagged); a few structs also in reversed field order.
 func (e *c28Enum) structs(talpha []*c28Term, ealpha []*c28Term, tags []string, second []c28Field, level int) {
-	names1 := []c28FieldName{{"X", 1}, {"X", 2}, {"a", 1}, {"a", 2}}
+	// the package dimension of a field NAME: a/p, b/p, no package at all (nil), and a second package object of path a/p;
+	// an exported name is the same identifier whatever the package, an unexported one only for equal package PATHS
+	// (nil being a "path" of its own)
+	names1 := []c28FieldName{{"X", 1}, {"X", 2}, {"X", 0}, {"a", 1}, {"a", 2}, {"a", 0}, {"a", 3}}
 	var first []c28Field
-	for _, n := range names1 {
-		for _, t := range talpha {
+	for i, n := range names1 {
+		ta := talpha
+		if n.pkg == 0 || n.pkg == 3 {
+			ta = talpha[:1+i%2] // the package dimension is independent of the field type: one or two types are enough
+		}
+		for _, t := range ta {
 			for _, tag := range tags {
 				first = append(first, c28Field{Name: n.name, Pkg: n.pkg, T: t, Tag: tag})
 			}
 		}
 	}
 	for _, t := range ealpha {
-		for _, tag := range tags {
-			first = append(first, c28Field{Name: c28EmbName(t), Pkg: 1, Emb: true, T: t, Tag: tag})
+		name := c28EmbName(t)
+		pkgs := []int{1, 0}
+		if !token.IsExported(name) {
+			pkgs = []int{1, 2, 0, 3} // unexported embedded field name: the FIELD's package decides
+		}
+		for _, p := range pkgs {
+			for _, tag := range tags {
+				if tag != "" && p != 1 {
+					continue // tags x packages: independent dimensions
+				}
+				first = append(first, c28Field{Name: name, Pkg: p, Emb: true, T: t, Tag: tag})
+			}
 		}
 	}
 	e.add(&c28Term{Op: "struct"}, level)
@@ -350,7 +373,11 @@ func (e *c28Enum) structs(talpha []*c28Term, ealpha []*c28Term, tags []string, s
 		if token.IsExported(f.Name) {
 			return f.Name
 		}
-		return fmt.Sprintf("%d.%s", f.Pkg, f.Name)
+		p := f.Pkg
+		if p == 3 {
+			p = 1 // same path
+		}
+		return fmt.Sprintf("%d.%s", p, f.Name)
 	}
 	for i, f := range first {
 		e.add(&c28Term{Op: "struct", Fields: []c28Field{f}}, level)
@@ -376,8 +403,12 @@ func (e *c28Enum) ifaces(sigs []*c28Term, level int) {
 	for _, s := range sigs {
 		ms = append(ms, c28Method{Name: "M", Pkg: 1, Sig: s})
 	}
-	rest = []c28Method{{Name: "N", Pkg: 2, Sig: sigs[0]}, {Name: "m", Pkg: 1, Sig: sigs[0]}, {Name: "m", Pkg: 2, Sig: sigs[0]}}
+	rest = []c28Method{{Name: "N", Pkg: 2, Sig: sigs[0]}, {Name: "m", Pkg: 1, Sig: sigs[0]}, {Name: "m", Pkg: 2, Sig: sigs[0]},
+		// the unexported method name without package (nil) and in a second package object of path a/p
+		{Name: "m", Pkg: 0, Sig: sigs[0]}, {Name: "m", Pkg: 3, Sig: sigs[0]}}
 	singles := append(append([]c28Method{}, ms...), rest...)
+	// exported names without package: the same identifier as in any package
+	singles = append(singles, c28Method{Name: "M", Pkg: 0, Sig: sigs[0]}, c28Method{Name: "N", Pkg: 0, Sig: sigs[0]})
 	var pairs [][]c28Method
 	for _, m := range ms {
 		for _, r := range rest {
@@ -386,7 +417,9 @@ func (e *c28Enum) ifaces(sigs []*c28Term, level int) {
 	}
 	pairs = append(pairs, []c28Method{rest[0], rest[1]}, []c28Method{rest[0], rest[2]}, []c28Method{rest[1], rest[2]},
 		// reversed orders: NewInterfaceType sorts the methods, so these must come out identical to the above
-		[]c28Method{rest[0], ms[0]}, []c28Method{rest[2], rest[1]})
+		[]c28Method{rest[0], ms[0]}, []c28Method{rest[2], rest[1]},
+		// two same-spelled unexported methods whose packages are {nil, a/p}, {nil, b/p}, {a/p', b/p} (m@1 with m@3 would be a duplicate)
+		[]c28Method{rest[0], rest[3]}, []c28Method{rest[3], rest[1]}, []c28Method{rest[3], rest[2]}, []c28Method{rest[2], rest[3]}, []c28Method{rest[4], rest[2]})
 	emit := func(mset []c28Method, embeds [][]string) {
 		for _, es := range embeds {
 			for _, shared := range []bool{false, true} {
@@ -433,7 +466,7 @@ func (e *c28Enum) levelTerms(level int) []*c28Term {
 func c28Terms(thorough bool) *c28Enum {
 	e := &c28Enum{seen: map[string]*c28Term{}}
 	var atoms []*c28Term
-	for _, n := range []string{"int", "string", "bool", "byte", "uint8", "a/p.A", "a/p.A'", "b/p.A", "a/p.I", "b/p.I", "a/p.K"} {
+	for _, n := range []string{"int", "string", "bool", "byte", "uint8", "a/p.A", "a/p.A'", "b/p.A", "a/p.I", "b/p.I", "a/p.K", "a/p.t"} {
 		atoms = append(atoms, e.atom(n))
 	}
 	at := e.byKey
@@ -458,7 +491,7 @@ func c28Terms(thorough bool) *c28Enum {
 	LL := func(ls ...[]*c28Term) [][]*c28Term { return ls }
 	e.funcs(c28Lists(L("int", "a/p.A"), 2), LL(nil, L("int"), L("int", "string"), L("string", "int")),
 		LL(nil, L("int")), L("int", "a/p.A"), LL(nil, L("int")), []*c28Term{nil, at("a/p.A"), at("ptr(a/p.A)")}, 1)
-	e.structs(L("int", "string"), L("a/p.A", "b/p.A", "ptr(a/p.A)"), []string{"", `k:"v"`},
+	e.structs(L("int", "string"), L("a/p.A", "b/p.A", "ptr(a/p.A)", "a/p.t", "ptr(a/p.t)"), []string{"", `k:"v"`},
 		[]c28Field{{Name: "Y", Pkg: 1, T: at("int")}, {Name: "a", Pkg: 2, T: at("string")}, {Name: "X", Pkg: 2, T: at("int")},
 			{Name: "A", Pkg: 2, Emb: true, T: at("b/p.A"), Tag: `k:"v"`}}, 1)
 	sig0 := e.fn(nil, nil, nil, false, 1)
@@ -475,7 +508,7 @@ func c28Terms(thorough bool) *c28Enum {
 		}
 	}
 	k2 := []*c28Term{at("ptr(int)"), at("arr1(int)"), at("struct{X@1 int}"), at("chanB(int)"), at("a/p.A"), at("interface{M@1 func()()}"), at("arr2(byte)")}
-	v2 := []*c28Term{at("slice(int)"), at("map(int,int)"), at("func()()"), at("struct{a@1 int}"), at("struct{a@2 int}"), at("interface{}"),
+	v2 := []*c28Term{at("slice(int)"), at("map(int,int)"), at("func()()"), at("struct{a@1 int}"), at("struct{a@2 int}"), at("struct{a@0 int}"), at("interface{m@0 func()()}"), at("interface{}"),
 		at("interface{embed a/p.K}"), at("chanR(a/p.A)"), at("ptr(uint8)"), at("ptr(byte)")}
 	for _, k := range k2 {
 		for _, v := range v2 {
@@ -484,10 +517,10 @@ func c28Terms(thorough bool) *c28Enum {
 	}
 	f2 := L("ptr(int)", "slice(string)", "func()()", "struct{a@1 int}", "interface{m@1 func()()}")
 	pl2 := c28Lists(f2[:3], 2)
-	pl2 = append(pl2, f2[3:4], f2[4:5], L("struct{a@1 int}", "struct{a@2 int}"))
+	pl2 = append(pl2, f2[3:4], f2[4:5], L("struct{a@1 int}", "struct{a@2 int}"), L("struct{a@0 int}"), L("struct{a@3 int}"), L("interface{m@0 func()()}"))
 	r2 := L("ptr(int)", "interface{m@2 func()()}")
 	e.funcs(pl2, LL(nil, r2[:1], r2), LL(nil, f2[:1]), f2, LL(nil, r2[1:]), []*c28Term{nil, at("ptr(a/p.A)")}, 2)
-	e.structs(L("slice(int)", "func[recv a/p.A]()()", "func()()", "interface{embed a/p.I}", "interface{P@1 func()()}", "struct{a@1 int}", "struct{a@2 int}"),
+	e.structs(L("slice(int)", "func[recv a/p.A]()()", "func()()", "interface{embed a/p.I}", "interface{P@1 func()()}", "struct{a@1 int}", "struct{a@2 int}", "struct{a@0 int}"),
 		L("ptr(b/p.A)", "b/p.I"), []string{""},
 		[]c28Field{{Name: "Y", Pkg: 1, T: at("slice(int)")}, {Name: "a", Pkg: 2, T: at("func()()")}, {Name: "I", Pkg: 2, Emb: true, T: at("b/p.I")}}, 2)
 	sigs2 := []*c28Term{
@@ -497,6 +530,7 @@ func c28Terms(thorough bool) *c28Enum {
 		e.fn(nil, nil, []*c28Term{at("interface{}")}, false, 2),
 		e.fn(nil, nil, []*c28Term{at("interface{embed a/p.K}")}, false, 2),
 		e.fn(nil, []*c28Term{at("struct{a@1 int}")}, []*c28Term{at("struct{a@2 int}")}, false, 2),
+		e.fn(nil, []*c28Term{at("struct{a@0 int}")}, []*c28Term{at("struct{a@2 int}")}, false, 2),
 	}
 	e.ifaces(sigs2, 2)
 	if !thorough {
